@@ -126,7 +126,13 @@ def tasks(tier, seed):
         abbrs = [(n, o) for n, o in abbrs if _strip_accents(n) == n]
     for i, (n, o) in enumerate(offsets):
         sp = spellings(n, o)
-        pick = [sp[(seed + i) % len(sp)]] if quick else sp
+        if quick:
+            # every compact digit-run spelling (where one offset's digits can be read as another's) + one rotated other
+            compact = [t for t in sp if re.fullmatch(r"(?:UTC|GMT)?[+-]\d{4}", t)]
+            rest = [t for t in sp if t not in compact]
+            pick = compact + ([rest[(seed + i) % len(rest)]] if rest else [])
+        else:
+            pick = sp
         for t in pick:
             add("offset:%s" % t, {"body": "iso_time", "tz_text": t, "off": o})
     # fully symbolic bodies: where digits of the body could be swallowed by an offset pattern
